@@ -21,9 +21,25 @@ pub fn dispatch(cmd: &str, v: &J) -> Option<Result<J, String>> {
     }
 }
 
+thread_local! {
+    /// the last schema parsed (consecutive commands usually share one; Schema::from_json_value is
+    /// a pure function of the JSON text, so this only saves time)
+    static LAST_SCHEMA: std::cell::RefCell<Option<(String, Result<Schema, String>)>> = std::cell::RefCell::new(None);
+}
+
 fn schema_of(v: &J) -> Result<Result<Schema, String>, String> {
     let j = v.get("schema").ok_or("no schema")?.clone();
-    Ok(Schema::from_json_value(j).map_err(|e| util::chain(&e)))
+    let key = j.to_string();
+    let hit = LAST_SCHEMA.with(|c| match &*c.borrow() {
+        Some((k, s)) if *k == key => Some(s.clone()),
+        _ => None,
+    });
+    if let Some(s) = hit {
+        return Ok(s);
+    }
+    let s = Schema::from_json_value(j).map_err(|e| util::chain(&e));
+    LAST_SCHEMA.with(|c| *c.borrow_mut() = Some((key, s.clone())));
+    Ok(s)
 }
 
 fn conformance_kind(e: &CE) -> &'static str {
